@@ -297,8 +297,13 @@ fn items_json<'tcx>(tcx: TyCtxt<'tcx>) -> (Vec<J>, Vec<J>, Vec<J>) {
                         _ => {}
                     }
                 }
+                let mut bounds = Vec::new();
+                for (pred, _) in tcx.predicates_of(did).predicates.iter() {
+                    bounds.push(J::s(ty::print::with_no_trimmed_paths!(format!("{}", pred))));
+                }
                 impls.push(obj! {
                     "path": J::s(def_path(tcx, did)),
+                    "bounds": J::Arr(bounds),
                     "trait": trait_path,
                     "trait_full": trait_full,
                     "self_ty": J::s(ty::print::with_no_trimmed_paths!(format!("{}", st))),
